@@ -254,7 +254,7 @@ func (tw *TumblingWindow) Add(data any) {
 		case tw.config.AllowedLateness > 0:
 			placed := false
 			for _, info := range tw.triggeredWindows {
-				if info.slot.Contains(eventTime) {
+				if info.slot.Contains(eventTime) && tw.stillOpenForLateData(info) {
 					tw.handleLateData(eventTime, tw.config.AllowedLateness)
 					placed = true
 					break
@@ -609,7 +609,7 @@ func (tw *TumblingWindow) closeExpiredWindows(watermarkTime time.Time) {
 func (tw *TumblingWindow) handleLateData(eventTime time.Time, allowedLateness time.Duration) {
 	// Find which triggered window this late data belongs to
 	for _, info := range tw.triggeredWindows {
-		if info.slot.Contains(eventTime) {
+		if info.slot.Contains(eventTime) && tw.stillOpenForLateData(info) {
 			// This late data belongs to a triggered window that's still open
 			// Trigger window again with updated data (late update)
 			resultData := tw.extractLateUpdateDataLocked(info.slot)
@@ -915,4 +915,16 @@ func (tw *TumblingWindow) GetStats() map[string]int64 {
 func (tw *TumblingWindow) ResetStats() {
 	atomic.StoreInt64(&tw.sentCount, 0)
 	atomic.StoreInt64(&tw.droppedCount, 0)
+}
+
+// stillOpenForLateData reports whether a fired window still accepts late updates: the
+// current watermark has not reached window end + ALLOWEDLATENESS. closeExpiredWindows
+// removes expired entries only when the trigger goroutine processes a watermark; when
+// that goroutine lags behind the ingest path, an entry can outlive its allowance, and a
+// row older than watermark - ALLOWEDLATENESS must not re-open it.
+func (tw *TumblingWindow) stillOpenForLateData(info *triggeredWindowInfo) bool {
+	if tw.watermark == nil {
+		return true
+	}
+	return tw.watermark.GetCurrentWatermark().Before(info.closeTime)
 }
